@@ -12,5 +12,5 @@ assert s.count(old)>=1, "pattern not found"
 open(p,'w').write(s.replace(old,new,1))
 PY
 (cd /tmp/wt-m && GOFLAGS=-mod=mod GOPROXY=off go build ./... ) || { echo "MUTANT DOES NOT COMPILE"; git -C /tmp/wt-m checkout -q -- .; exit 3; }
-cd /verif; VERIF_REPO=/tmp/wt-m ./check $P 2>&1 | grep -v "^  broken: CORR" | tail -${TAIL:-6} || true
+cd ${VERIF_HOME:-/verif}; VERIF_REPO=/tmp/wt-m ./check $P 2>&1 | grep -v "^  broken: CORR" | tail -${TAIL:-6} || true
 git -C /tmp/wt-m checkout -q -- .
